@@ -86,7 +86,7 @@ fn hashes(name: &str, n: u64, tier: Tier) -> i32 {
         return 2;
     };
     let seed = seed_from_env();
-    let r = run_batch(scn.as_ref(), tier, seed, n, workers(), true, 1e9);
+    let r = run_batch(scn.as_ref(), tier, seed, 0, n, workers(), true, 1e9);
     for (i, h) in &r.stats.hashes {
         println!("{i} {h:016x}");
     }
@@ -127,16 +127,23 @@ fn check(id: &str, tier: Tier) -> i32 {
     let mut truncated = false;
     let mut warnings: Vec<String> = Vec::new();
 
+    let mut jobs: Vec<(&Box<dyn Scenario>, u64, u64, &'static str)> = Vec::new();
     for scn in scns {
         let n = std::env::var("VERIF_RUNS").ok().and_then(|s| s.parse::<u64>().ok()).unwrap_or_else(|| scn.runs(tier));
+        jobs.push((scn, 0, n, ""));
+        // the same scenario again with a Trace-level logger installed (a quarter as many runs)
+        jobs.push((scn, crate::core::LOG_BIT, (n / 4).max(n.min(4)), " [logging on]"));
+    }
+    for (scn, base, n, tag) in jobs {
         let guard = match tier {
             Tier::Quick => 150.0,
             Tier::Thorough => 3600.0,
         };
-        let r = run_batch(scn.as_ref(), tier, seed, n, nworkers, false, guard);
+        let r = run_batch(scn.as_ref(), tier, seed, base, n, nworkers, false, guard);
         println!(
-            "  scenario {:<20} runs={} wall={:.2}s ({:.0} runs/h) distinct_executions={} discarded={}",
+            "  scenario {:<20}{} runs={} wall={:.2}s ({:.0} runs/h) distinct_executions={} discarded={}",
             scn.name(),
+            tag,
             r.stats.runs,
             r.wall_s,
             r.stats.runs as f64 / r.wall_s.max(1e-6) * 3600.0,
@@ -154,7 +161,9 @@ fn check(id: &str, tier: Tier) -> i32 {
         total_discarded += r.stats.discarded;
         distinct_nontrivial += r.stats.distinct_logs.len() as u64;
         sim_ns += r.stats.sim_ns;
-        samples.extend(r.samples.iter().cloned());
+        if base == 0 {
+            samples.extend(r.samples.iter().cloned());
+        }
         // Fault kinds that never fired / probes the scenario expects but never hit.
         for k in scn_expected_probes(scn.as_ref(), tier) {
             if r.stats.probes.get(k).copied().unwrap_or(0) == 0 && r.stats.faults.get(k).copied().unwrap_or(0) == 0 {
@@ -163,7 +172,8 @@ fn check(id: &str, tier: Tier) -> i32 {
         }
         per_scn.push(
             J::obj()
-                .with("scenario", J::s(scn.name()))
+                .with("scenario", J::s(format!("{}{}", scn.name(), tag)))
+                .with("logger_installed", J::Bool(base != 0))
                 .with("what", J::s(scn.describe()))
                 .with("runs", J::u(r.stats.runs))
                 .with("runs_without_verdict", J::u(r.stats.discarded))
